@@ -186,7 +186,7 @@ def canon(OUT):
         if isinstance(v, VecVal):
             return tuple(r(x) for x in v.items)
         if isinstance(v, dict):
-            return tuple(sorted((str(k), r(x)) for k, x in v.items() if k not in ('slice', 'k')))
+            return tuple(sorted((str(k), r(x)) for k, x in v.items() if k not in ('slice', 'k', 'start', 'prefixed')))
         if isinstance(v, (list, tuple)):
             return tuple(r(x) for x in v)
         if isinstance(v, Opaque):
